@@ -199,6 +199,9 @@ def strat_b(tier):
                           min_size=0, max_size=11),
         'exc': st.sampled_from(_EXC),
         'msg': st.sampled_from(_MSG),
+        # > 0: the module file held an EARLIER version (that many extra lines on top) which was imported, raised and was rendered by
+        # the traceback module - so linecache holds its lines - before the file was rewritten with the program and reloaded
+        'rewritten': st.sampled_from([0, 0, 0, 1, 2, 3]),
     })
 
 
@@ -319,10 +322,26 @@ def run_b(case):
     old_limit = sys.getrecursionlimit()
     if deep:
         sys.setrecursionlimit(max(old_limit, deep + 2000))
+    rewritten = case.get('rewritten', 0) if not deep else 0
     spec = importlib.util.spec_from_file_location(name, path)
     mod = importlib.util.module_from_spec(spec)
     sys.modules[name] = mod
     try:
+        if rewritten:
+            # history: an earlier version of the same file was imported, failed and had its traceback printed (linecache now holds
+            # ITS lines under this file name); then the file is rewritten and the module reloaded, as in an edit-reload session.
+            with open(path, 'w', encoding='utf-8') as f:
+                f.write('# line of an earlier version of this module\n' * rewritten + src)
+            spec.loader.exec_module(mod)
+            try:
+                mod.entry()
+            except Exception:
+                traceback.format_exception(*sys.exc_info())
+            with open(path, 'w', encoding='utf-8') as f:
+                f.write(src)
+            st_ = os.stat(path)
+            os.utime(path, ns=(st_.st_atime_ns, st_.st_mtime_ns + 2 * 10 ** 9))
+            out.label('file_rewritten_after_an_earlier_traceback')
         spec.loader.exec_module(mod)
         try:
             mod.entry()
